@@ -2,6 +2,7 @@
 (* Constant families for the GinCore sub-models. *)
 EXTENDS GinCore
 
+LNone == <<"lit", "None">>
 L1 == <<"lit", "1">>
 L2 == <<"lit", "2">>
 D(p) == <<"lit", "d_" \o p>>       \* the default of parameter p
@@ -179,7 +180,7 @@ MacRefFilter(sc, c, v) ==
 \* constant abbreviations only (scenario export for C05)
 MacPctVals == { Pct(<<"X">>), Pct(<<"m","X">>), Pct(<<"Y">>) }
 MacPctFilter(sc, c, v) == c.sel = <<"m","f">> /\ v \in MacPctVals /\ sc = <<>>
-MacConstVals1 == {O1}
+MacConstVals1 == {O1, LNone}        \* an object, and None (a constant may hold any value)
 \* macro definitions live under the macro's name as scope
 MacScopeNames == {"W", "X"}
 NamesMac == <<"p", "q", "value", "x">>
@@ -304,7 +305,6 @@ BV1 == {L1}
 NamesPQ == <<"p", "q">>
 BV12 == {L1, L2}
 \* with values that are false / None in Python (a bound value is a value, whatever its truth)
-LNone == <<"lit", "None">>
 LZero == <<"lit", "zero">>
 BV12F == {L1, L2, LNone, LZero}
 \* with a literal that the adapter may concretise as a mutable container (the consumer mutates what it receives)
